@@ -15,8 +15,71 @@ import time
 VERIF = os.path.dirname(os.path.dirname(os.path.abspath(__file__)))
 SPECS = os.path.join(VERIF, "specs")
 OUT = os.path.join(VERIF, "out")
-EVID = os.path.join(VERIF, "evidence")
+EVID = os.environ.get("VERIF_EVID") or os.path.join(VERIF, "evidence")
 TLA_CP = "/opt/veriftools/tla/tla2tools.jar:/opt/veriftools/tla/CommunityModules-deps.jar"
+
+
+class Hang(BaseException):
+    """Raised (by SIGALRM) inside the code under test when one case exceeds its time budget."""
+
+
+class HangDetected(Exception):
+    """A worker reported cases on which the implementation did not terminate (or exhausted memory)."""
+
+    def __init__(self, items):
+        super().__init__(f"{len(items)} case(s) did not terminate")
+        self.items = items          # [(kind, seconds, case)]
+
+
+_WATCH = {"case": None, "limit": 0, "installed": False, "guarded": False, "fired": 0}
+
+
+def _on_alarm(signum, frame):
+    _WATCH["fired"] += 1
+    raise Hang(f"no result after {_WATCH['limit']}s")
+
+
+def tick(case=None, seconds=120):
+    """Start the time budget of the next case (call at the top of every per-case loop iteration).
+    The budget is wall-clock and generous: a case normally takes milliseconds to a few seconds."""
+    import signal
+    import threading
+    if threading.current_thread() is not threading.main_thread() or not _WATCH["guarded"]:
+        return                      # only inside runner.pmap, which collects the outcome
+    if not _WATCH["installed"]:
+        signal.signal(signal.SIGALRM, _on_alarm)
+        _WATCH["installed"] = True
+    if _WATCH["fired"] >= 2:
+        # two cases of this chunk already ran out of time (and the harness went on): stop here
+        raise Hang("repeated")
+    _WATCH["case"] = case
+    _WATCH["limit"] = seconds
+    signal.setitimer(signal.ITIMER_REAL, seconds)
+
+
+def untick():
+    import signal
+    import threading
+    if threading.current_thread() is threading.main_thread() and _WATCH["installed"]:
+        signal.setitimer(signal.ITIMER_REAL, 0)
+    _WATCH["case"] = None
+
+
+def current_case():
+    return _WATCH["case"], _WATCH["limit"]
+
+
+def run_impl(cmd, timeout, **kw):
+    """subprocess.run of an implementation entry point: a run that does not come back within the (generous)
+    budget is an outcome to be judged (returncode -999), not a failure of the machinery."""
+    import subprocess
+    try:
+        return subprocess.run(cmd, timeout=timeout, **kw)
+    except subprocess.TimeoutExpired as e:
+        out = e.stdout or ""
+        if isinstance(out, bytes):
+            out = out.decode("utf-8", "replace")
+        return subprocess.CompletedProcess(cmd, -999, out + f"\n[no result after {timeout}s]", "")
 
 
 class MachineryError(Exception):
